@@ -376,3 +376,173 @@ func ruleL34(p *Prog, r *Report) {
 	}
 	r.Ok(R, "scratch-fills", "-", fmt.Sprintf("%d fills of an encoder's scratch buffer by a call", n))
 }
+
+// S17 only the loaded-value readers ask whether a slab is in memory.
+//
+// C08: whether a slab is served from the write set, the read cache or the ledger never changes an outcome. The
+// one API whose answer depends on what is in memory (RetrieveIfLoaded) exists for the loaded-value iterators and
+// getLoadedValue, which are documented to see loaded data only. A mutation or lookup path that consults it makes a
+// structural choice depend on the cache (which sibling to rebalance with): every resulting tree is valid, but the
+// registers differ between schedules of commits, evictions and reopenings.
+func ruleS17(p *Prog, r *Report) {
+	const R = "S17"
+	n := 0
+	for _, top := range p.TopFuncs() {
+		if p.IsTestFile(top.Pos()) || strings.HasSuffix(recvName(top), "SlabStorage") {
+			continue
+		}
+		eachInstrDeep(top, func(fn *ssa.Function, in ssa.Instruction) {
+			c, ok := in.(ssa.CallInstruction)
+			if !ok || !c.Common().IsInvoke() || c.Common().Method.Name() != "RetrieveIfLoaded" {
+				return
+			}
+			n++
+			// allowed: loaded-value readers, and private helpers only they call
+			var allowed func(f *ssa.Function, d int) bool
+			allowed = func(f *ssa.Function, d int) bool {
+				// the loaded-value iterators (types) and the loaded-value reader of a storable
+				rn := recvName(f)
+				if strings.Contains(rn, "Loaded") || strings.Contains(rn, "loaded") || (f.Signature.Recv() == nil && f.Name() == "getLoadedValue") {
+					return true
+				}
+				if d > 2 || f.Object() == nil || f.Object().Exported() {
+					return false
+				}
+				sites := p.CallersOf(f)
+				if len(sites) == 0 {
+					return false
+				}
+				for _, cs := range sites {
+					if !allowed(TopLevel(cs.Caller), d+1) {
+						return false
+					}
+				}
+				return true
+			}
+			r.Decide(allowed(top, 0), R, "loaded-query-only-in-loaded-readers:"+p.Name(top), p.InstrPos(in),
+				"asked by a loaded-value reader",
+				"a routine that is not one of the loaded-value readers asks whether a slab is in memory: what it does next depends on the state of the write set and the read cache, so the same history yields different registers under different schedules of commits, evictions and reopenings")
+		})
+	}
+	r.Floor(R, "is-loaded queries", 3, n)
+}
+
+// N9 the child's callback is evaluated when it runs, and the setter always installs.
+//
+// (a) setParentUpdater stores its argument on every path: a child that is handed to a new parent must get that
+// parent's callback, whatever it had before. (b) The callback a parent installs looks at the child's state when it
+// is called: a closure that captures a boolean computed from the child at installation time (is it inlined, would it
+// fit) decides with a snapshot that another handle of the same child may have invalidated.
+func ruleN9(p *Prog, r *Report) {
+	const R = "N9"
+	n := 0
+	for _, f := range p.TopFuncs() {
+		if p.IsTestFile(f.Pos()) || f.Name() != "setParentUpdater" || len(f.Params) != 2 {
+			continue
+		}
+		n++
+		isStore := func(z ssa.Instruction) bool {
+			st, ok := z.(*ssa.Store)
+			if !ok {
+				return false
+			}
+			fr, ok := asFieldAddr(st.Addr)
+			return ok && sameValue(fr.Base, f.Params[0]) && canon(st.Val) == ssa.Value(f.Params[1])
+		}
+		bad := successReturnAvoiding(f, nil, isStore)
+		r.Decide(bad == nil, R, "setter-always-installs:"+p.Name(f), p.Pos(f.Pos()), "the callback handed in is stored on every path",
+			"setParentUpdater can return without installing the callback it was given: a child that moves to another parent keeps the callback of its former parent, whose next run reports 'not my child' and is dropped - the new parent is never notified")
+	}
+	// (b) closures handed to setParentUpdater
+	for _, top := range p.TopFuncs() {
+		if p.IsTestFile(top.Pos()) {
+			continue
+		}
+		eachInstr(top, func(in ssa.Instruction) {
+			c, ok := in.(ssa.CallInstruction)
+			if !ok || calleeName(c) != "setParentUpdater" {
+				return
+			}
+			args := callArgs(c)
+			if len(args) == 0 {
+				return
+			}
+			cl := closureOf(args[len(args)-1])
+			mc, _ := canon(args[len(args)-1]).(*ssa.MakeClosure)
+			if cl == nil || mc == nil {
+				return
+			}
+			n++
+			bad := ""
+			for i, b := range mc.Bindings {
+				// what the captured cell holds
+				v := singleStoreTo(b)
+				if v == nil {
+					v = b
+				}
+				if bt, ok := v.Type().Underlying().(*types.Basic); !ok || bt.Kind() != types.Bool {
+					continue
+				}
+				if sliceContains(v, func(x ssa.Value) bool {
+					cc, ok := x.(*ssa.Call)
+					return ok && cc.Call.IsInvoke() && (cc.Call.Method.Name() == "Inlined" || cc.Call.Method.Name() == "Inlinable")
+				}, 0, map[ssa.Value]bool{}) {
+					if i < len(cl.FreeVars) {
+						bad = cl.FreeVars[i].Name()
+					} else {
+						bad = "?"
+					}
+				}
+			}
+			r.Decide(bad == "", R, "callback-reads-live-state:"+p.Name(top), p.InstrPos(in), "the callback captures no snapshot of the child's inlined / inlinable state",
+				"the callback captures "+bad+", a boolean computed from the child's inlined / inlinable state when the callback was installed: another handle of the same child may have changed that state since, and the callback then skips an update that is needed (or the other way round)")
+		})
+	}
+	r.Floor(R, "callback setters and installations", 4, n)
+}
+
+// L35 the position a lower-bound search returns is compared with the key before it counts as a hit.
+//
+// sort.Search / sort.SearchStrings / sort.SearchInts return the insertion point, not "found": an index inside the
+// list only means the key is not larger than everything. Obligation per call: some test in the function compares the
+// element at the returned index with the searched key (or the function uses a search that reports found). A missing
+// comparison makes every key that sorts before an entry pass for that entry (an inlined child written with a
+// reference to another child's type).
+func ruleL35(p *Prog, r *Report) {
+	const R = "L35"
+	n := 0
+	for _, top := range p.TopFuncs() {
+		if p.IsTestFile(top.Pos()) {
+			continue
+		}
+		eachInstrDeep(top, func(fn *ssa.Function, in ssa.Instruction) {
+			c, ok := in.(*ssa.Call)
+			if !ok || c.Call.StaticCallee() == nil || c.Call.StaticCallee().Pkg == nil || c.Call.StaticCallee().Pkg.Pkg.Path() != "sort" {
+				return
+			}
+			nm := c.Call.StaticCallee().Name()
+			if nm != "SearchStrings" && nm != "SearchInts" && nm != "SearchFloat64s" && nm != "Search" {
+				return
+			}
+			n++
+			compared := false
+			eachInstr(fn, func(y ssa.Instruction) {
+				bo, ok := y.(*ssa.BinOp)
+				if !ok || (bo.Op != token.EQL && bo.Op != token.NEQ) {
+					return
+				}
+				for _, side := range []ssa.Value{bo.X, bo.Y} {
+					// an element of some list at the returned index
+					if u, ok := canon(side).(*ssa.UnOp); ok && u.Op == token.MUL {
+						if ia, ok := u.X.(*ssa.IndexAddr); ok && sliceContains(ia.Index, func(v ssa.Value) bool { return v == ssa.Value(c) }, 0, map[ssa.Value]bool{}) {
+							compared = true
+						}
+					}
+				}
+			})
+			r.Decide(compared, R, "search-hit-compared:"+p.Name(fn), p.InstrPos(in), "the element at the returned position is compared with the key",
+				"the position returned by a lower-bound search is used as a hit without comparing the element there with the key: every key that is absent but sorts before some entry is taken for that entry")
+		})
+	}
+	r.Ok(R, "lower-bound-searches", "-", fmt.Sprintf("%d calls of sort.Search*", n))
+}
